@@ -13,6 +13,7 @@ import (
 	"net/netip"
 	"os"
 	"path/filepath"
+	"runtime"
 	"strconv"
 	"strings"
 	"time"
@@ -100,6 +101,8 @@ func errText(err error) string {
 		return "ErrInvalidIP"
 	case errors.Is(err, packet.ErrTimeout):
 		return "ErrTimeout"
+	case errors.Is(err, packet.ErrPayloadTooBig):
+		return "ErrPayloadTooBig"
 	}
 	return "error: " + err.Error()
 }
@@ -234,6 +237,44 @@ func (s *sender) dhcpScenario(c *nicCtx, e *vh.WireEnv, call jmap, rng *rand.Ran
 		err = deliverDHCP(sess, h, vh.FrameIP4UDP(c.nic.RouterMAC, e.MAC("bcast"), c.nic.RouterIP, bc, 67, 68, msg))
 		conn.WaitLen(1, 500*time.Millisecond)
 		out.primary = func(a *vh.AbsFrame) bool { return a.DHCP != nil && a.DHCP.MsgType == 4 }
+	case "dhcp4.ForgedDeclinePair":
+		// OFFER A (client mac1) and OFFER B (client mac2) from the LAN's DHCP server, delivered through ONE receive
+		// buffer that is overwritten with B as soon as ProcessPacket(A) returns; one processor, so that the goroutine
+		// that forges the DECLINE for A runs after B is in the buffer
+		offered, sv := e.IP("lan4").As4(), c.nic.RouterIP.As4()
+		e.Args["arg.server"], e.Args["arg.offered"] = hex.EncodeToString(sv[:]), hex.EncodeToString(offered[:])
+		mk := func(mac net.HardwareAddr, x uint32, yi netip.Addr, id []vh.DHCP4Opt) []byte {
+			o := append([]vh.DHCP4Opt{{Code: 53, Data: []byte{2}}, {Code: 54, Data: sv[:]}, {Code: 51, Data: []byte{0, 0, 14, 16}}}, id...)
+			return vh.FrameIP4UDP(c.nic.RouterMAC, e.MAC("bcast"), c.nic.RouterIP, bc, 67, 68, vh.DHCP4(2, x, 0, zero, yi, netip.Addr{}, netip.Addr{}, mac, o))
+		}
+		var cidB []vh.DHCP4Opt
+		if len(cid) > 0 {
+			cidB = []vh.DHCP4Opt{{Code: 61, Data: append([]byte{0}, randBytes(rng, 59)...)}}
+		}
+		fa, fb := mk(e.MAC("mac1"), xid, e.IP("lan4"), cid), mk(e.MAC("mac2"), xid^0x5a5a5a5a, c.nic.RouterIP.Next().Next(), cidB)
+		buf := make([]byte, 0, 2048)
+		prev := runtime.GOMAXPROCS(1)
+		for _, f := range [][]byte{fa, fb} {
+			buf = buf[:len(f)]
+			copy(buf, f)
+			fr, perr := sess.Parse(buf)
+			if perr == nil {
+				perr = h.ProcessPacket(fr)
+			}
+			if perr != nil && err == nil {
+				err = perr
+			}
+		}
+		full := buf[:cap(buf)]
+		for i := range full {
+			full[i] = 0xEE // the capture buffer moves on
+		}
+		runtime.GOMAXPROCS(prev)
+		conn.WaitLen(2, 500*time.Millisecond)
+		wantXID := fmt.Sprintf("%08x", xid)
+		out.primary = func(a *vh.AbsFrame) bool {
+			return a.DHCP != nil && a.DHCP.MsgType == 4 && hex.EncodeToString(a.DHCP.XID) == wantXID
+		}
 	case "dhcp4.ForgedRelease":
 		var offered netip.Addr
 		if offered, err = discover(); err == nil {
@@ -311,7 +352,7 @@ func (s *sender) call(c *nicCtx, e *vh.WireEnv, call jmap, rng *rand.Rand) (out 
 	switch f {
 	case "PurgeProbe":
 		return s.purgeScenario(c, e, call)
-	case "dhcp4.ServerReply", "dhcp4.ForgedDecline", "dhcp4.ForgedRelease":
+	case "dhcp4.ServerReply", "dhcp4.ForgedDecline", "dhcp4.ForgedDeclinePair", "dhcp4.ForgedRelease":
 		return s.dhcpScenario(c, e, call, rng)
 	case "dhcp4.SendDiscoverPacket":
 		dsess, conn, h := s.newDHCP(c)
@@ -498,7 +539,23 @@ func (s *sender) runVector(v jmap, inst int, seed int64, r *result) {
 		if !clean {
 			level = "note"
 		}
-		r.add(level, "C07:"+fn+":panic", "%s panicked: %s", fn, out.err)
+		key := "C07:" + fn + ":panic"
+		if jstr(mech, "err") == "panic" { // a labelled deviation of the mechanism model
+			for _, x := range jlist(mech, "kf") {
+				key = "C07:" + jstr(x.(map[string]interface{}), "label")
+			}
+		}
+		r.add(level, key, "%s panicked: %s", fn, out.err)
+		return
+	}
+	if jint(exp, "n") == 0 && clean {
+		// the statement demands that nothing is transmitted (the request cannot be carried by one frame)
+		if len(out.frames) > 0 {
+			r.add("prop", "C07:"+fn+":unexpected-frame", "%s emitted %d frame(s) for a request that does not fit a frame", fn, len(out.frames))
+		}
+		if ee := jstr(exp, "err"); ee != "any" && ee != out.err {
+			r.add("prop", "C07:"+fn+":error", "%s returned %s, expected %s", fn, out.err, ee)
+		}
 		return
 	}
 	// select the primary frame
